@@ -1,0 +1,20 @@
+//go:build verif
+
+package pool
+
+// VerifLockProbeSectorAllocator reports whether the lock of a
+// SectorAllocator created by NewBitmapSectorAllocator() can currently
+// be acquired. The lock is released again immediately. Allocators of
+// other types are reported as free. This hook is only used by external
+// verification tooling (property C14) and never decides anything.
+func VerifLockProbeSectorAllocator(sa SectorAllocator) bool {
+	b, ok := sa.(*bitmapSectorAllocator)
+	if !ok {
+		return true
+	}
+	if !b.lock.TryLock() {
+		return false
+	}
+	b.lock.Unlock()
+	return true
+}
